@@ -148,6 +148,8 @@ def check_family(ctx, members, report=True):
             if "sem" not in rec:
                 continue
             kind, vid, sk = rec["label"] + (":valid" if rec["valid"] else ":invalid"), rec["vid"], _semkey(rec)
+            if report and rec["desc"].get("view_mismatch"):
+                ctx.count("core_vs_package_view", "+".join(rec["desc"]["view_mismatch"]))
             if report:
                 ctx.case((kind, vid, sk), nontrivial=rec["valid"],
                          sample={"step": rec["key"], "vid": vid, "edit": m.get("edit")} if mi == 1 else None)
